@@ -85,11 +85,17 @@ def candidateVertex (s : Schema) (n : Name) : Option Vertex :=
   | some d => if d.name != s.queryType.name then some (.vertexType d) else none
   | none => none
 
-/-- `vertex_type_iter` (adapter/mod.rs:78–113): never yields the root query type.  With a
-`Multiple` candidate it yields one vertex per *element* of the candidate list. -/
+/-- The candidate names with repetitions dropped (first occurrences kept): the `seen_names` set of
+`vertex_type_iter` (the repair of F-C20-1). -/
+def dedupNames : List Name → List Name → List Name
+  | _, [] => []
+  | seen, n :: ns => if seen.contains n then dedupNames seen ns else n :: dedupNames (n :: seen) ns
+
+/-- `vertex_type_iter` (adapter/mod.rs:78–119): never yields the root query type.  With a
+`Multiple` candidate it yields one vertex per *distinct* name of the candidate list. -/
 def vertexTypeIter (s : Schema) : NameCandidate → List Vertex
   | .single n => (candidateVertex s n).toList
-  | .multiple ns => ns.filterMap (candidateVertex s)
+  | .multiple ns => (dedupNames [] ns).filterMap (candidateVertex s)
   | .other =>
     (s.vertexTypes.filter (fun t => t.name != s.queryType.name)).map .vertexType
 
